@@ -96,7 +96,7 @@ KeySynth(m)  == IF m["tag:synth"] # NoVal THEN {"WAITING"} ELSE {}
 
 (* scalar readers: a result token for reader f with key argument k ("-" if none) *)
 RS(m, blk, blkg, f, k) ==
-  CASE f = "get_uuid"        -> "t1"
+  CASE f \in {"get_uuid", "data.get_uuid"} -> "t1"
     [] f = "get_status"      -> StatusOf(m)
     [] f = "get_description" -> ValOrEmpty(m["description"])
     [] f = "get_priority"    -> ValOrEmpty(m["priority"])
@@ -124,7 +124,7 @@ KeyedReaders == {"get_value","get_timestamp","get_user_defined_attribute","get_l
                  "get_uda","data.get","data.has"}
 PlainReaders == {"get_uuid","get_status","get_description","get_priority","get_entry","get_wait",
                  "get_modified","get_due","is_waiting","is_active","is_blocked","is_blocking",
-                 "eq_clone","debug"}
+                 "eq_clone","debug","data.get_uuid"}
 (* the reader calls every sweep must contain *)
 TaskScalarCalls(m) ==
   {<<f, "-">> : f \in PlainReaders}
